@@ -344,8 +344,55 @@ func (t *twin) reportRowDiff(q *qgen.Query, req string, onlyA, onlyB []string, r
 	if q.FromG {
 		suffix += "/through-relation"
 	}
+	// a difference that the recognisers of the known defects do not explain is looked at again without
+	// the documents that were updated through a partial document object: those are explained by that
+	// update (unless a recogniser explains them on their own)
+	split := func(rows []map[string]any) (partial, rest []map[string]any) {
+		for _, r := range rows {
+			if t.partial[fmt.Sprint(r["_docID"])] && !q.FromG {
+				partial = append(partial, r)
+			} else {
+				rest = append(rest, r)
+			}
+		}
+		return
+	}
+	if q.FromG && len(t.partial) > 0 {
+		// a request on G through the relation: the differing rows are G documents; when the recognisers
+		// explain nothing and a member of such a G document was updated through a partial document object,
+		// that update explains the difference
+		gids := map[string]bool{}
+		for _, r := range append(parseRows(onlyA), parseRows(onlyB)...) {
+			gids[fmt.Sprint(r["_docID"])] = true
+		}
+		member := false
+		for _, r := range t.liveRows(t.B) {
+			member = member || t.partial[fmt.Sprint(r["_docID"])] && gids[fmt.Sprint(r["g_id"])]
+		}
+		if member && (len(onlyB) == 0 || t.classifyMissing(q.Filter, parseRows(onlyB), true) == "") && (len(onlyA) == 0 || t.classifyExtra(q.Filter, parseRows(onlyA), rowsB) == "") {
+			t.r.Violate(sigPartialUpdate, "a member document updated through an object that carried only the patched fields (client.NewDocWithID + Set) is no longer found through the index of a field the object did not carry: "+msg, det)
+			t.stop = true
+			return
+		}
+	}
+	partialMsg := "a document updated through an object that carried only the patched fields (client.NewDocWithID + Set) is no longer found through the index of a field the object did not carry: " + msg
 	if len(onlyB) > 0 {
 		sig := t.classifyMissing(q.Filter, parseRows(onlyB), q.FromG)
+		if pr, rest := split(parseRows(onlyB)); sig == "" && len(pr) > 0 {
+			if t.classifyMissing(q.Filter, pr, q.FromG) == "" {
+				t.r.Violate(sigPartialUpdate, partialMsg, det)
+				t.stop = true
+			}
+			if len(rest) > 0 {
+				sig = t.classifyMissing(q.Filter, rest, q.FromG)
+			}
+			if len(rest) == 0 || sig != "" && t.stop {
+				if sig != "" {
+					t.r.Violate(sig, msg, det)
+				}
+				return
+			}
+		}
 		if sig == "" {
 			sig = "rows/missing-on-indexed-side/" + suffix
 		}
@@ -353,6 +400,21 @@ func (t *twin) reportRowDiff(q *qgen.Query, req string, onlyA, onlyB []string, r
 	}
 	if len(onlyA) > 0 {
 		sig := t.classifyExtra(q.Filter, parseRows(onlyA), rowsB)
+		if pr, rest := split(parseRows(onlyA)); sig == "" && len(pr) > 0 {
+			if t.classifyExtra(q.Filter, pr, rowsB) == "" {
+				t.r.Violate(sigPartialUpdate, partialMsg, det)
+				t.stop = true
+			}
+			if len(rest) > 0 {
+				sig = t.classifyExtra(q.Filter, rest, rowsB)
+			}
+			if len(rest) == 0 || sig != "" && t.stop {
+				if sig != "" {
+					t.r.Violate(sig, msg, det)
+				}
+				return
+			}
+		}
 		if sig == "" {
 			sig = "rows/extra-on-indexed-side/" + suffix
 		}
